@@ -54,6 +54,15 @@ class SubLeaf(Leaf):
     """subclass of Leaf: skip=[Leaf] must remove it too (isinstance semantics at save time)."""
 
 
+class HybridModule(AutoSerialize, torch.nn.Module):
+    """both an AutoSerialize object and an nn.Module, like the ptychography object / probe models (and the
+    repo's own test_hybrid_module_roundtrip).  Plain attributes are set by the generator."""
+
+    def __init__(self):
+        torch.nn.Module.__init__(self)
+        self.weight = torch.nn.Parameter(torch.arange(3, dtype=torch.float32))
+
+
 class Other(AutoSerialize):
     """third class (used as 'object of another class' by C08 and as skip type by C14)."""
 
@@ -74,7 +83,7 @@ class Unpicklable:
         raise RuntimeError("Unpicklable: refusing to be pickled")
 
 
-CLASSES = {"Node": Node, "Leaf": Leaf, "SubLeaf": SubLeaf, "Other": Other}
+CLASSES = {"Node": Node, "Leaf": Leaf, "SubLeaf": SubLeaf, "Other": Other, "HybridModule": HybridModule}
 
 def place(v, placement, rng):
     """returns the root object holding v at the given placement (attribute name 'x')."""
@@ -162,6 +171,21 @@ def gen_numeric_seq(rng):
     return vals
 
 
+def _wide_leaf(rng, i):
+    c = int(rng.integers(6))
+    if c == 0:
+        return i
+    if c == 1:
+        return "s%d" % i
+    if c == 2:
+        return None
+    if c == 3:
+        return float(i) + 0.5
+    if c == 4:
+        return ["n%d" % i, i]
+    return Path("p/%d" % i)
+
+
 def gen_value(rng, depth, maxdepth, stats, in_container=False):
     """one value; containers / objects recurse until maxdepth."""
     can_nest = depth < maxdepth
@@ -193,15 +217,28 @@ def gen_value(rng, depth, maxdepth, stats, in_container=False):
         stats["heavy"] = stats.get("heavy", 0) + 1
         return build_kind(_HEAVY_KINDS[int(rng.integers(len(_HEAVY_KINDS)))], rng)
     width = int(rng.integers(0, 5 if depth else 8))
+    wide = c in ("list", "tuple", "dict", "set") and rng.random() < 0.08 and stats.get("wide", 0) < 2
+    if wide:
+        # widths crossing 10 (and now and then 100): cheap leaves only, so the case stays fast
+        stats["wide"] = stats.get("wide", 0) + 1
+        width = int(rng.integers(101, 120)) if rng.random() < 0.1 else int(rng.integers(11, 30))
     if c in ("list", "tuple"):
-        items = [gen_value(rng, depth + 1, maxdepth, stats, True) for _ in range(width)]
+        if wide:
+            items = [_wide_leaf(rng, i) for i in range(width)]
+        else:
+            items = [gen_value(rng, depth + 1, maxdepth, stats, True) for _ in range(width)]
         if items and all(_is_real(x) for x in items):
             items.append("s")  # keep the all-numeric domain restrictions in gen_numeric_seq only
         return items if c == "list" else tuple(items)
     if c == "dict":
+        if wide:
+            return {"%s%d" % (NAME_POOL[i % len(NAME_POOL)], i): _wide_leaf(rng, i) for i in range(width)}
         return {k: gen_value(rng, depth + 1, maxdepth, stats, True) for k in _names(rng, width)}
     if c == "set":
         out = set()
+        if wide:
+            out = {"w%d" % i if i % 3 else (i, "t") for i in range(width)}
+            width = 0
         for _ in range(width):
             r = rng.random()
             if r < 0.75:
